@@ -350,6 +350,13 @@ fn run_case(c: &Case) -> Result<(bool, bool, bool), Failure> {
 	let mut had_seek = false;
 	let mut frames_since_seek = usize::MAX;
 	let mut seek_target: Option<usize> = None;
+	// what the handle reports before the sound has seen its first callback: the frame playback will
+	// begin with (forwards or in reverse)
+	if !model.stopped {
+		let reported = handle.position() * c.sound_rate as f64;
+		let heard = model.heard_index() as f64;
+		ensure!((reported - heard).abs() <= 1.0 + 1e-9, "position-names-heard-frame", "before the first callback: handle.position() = frame {reported}, playback begins at frame {heard}; case {c:?}");
+	}
 	for (ci, len) in c.chunks.iter().enumerate() {
 		let mut new_rate = None;
 		for (at, cmd) in &c.cmds {
@@ -624,7 +631,7 @@ impl Property for C04 {
 		"C04"
 	}
 	fn rule(&self) -> &'static str {
-		"each case plays one StaticSoundData (index-coded frames, frames outside the slice poisoned with 777.0) as a Box<dyn Sound> with MockInfoBuilder, chunk by chunk, next to an independent reference player. Exact mode (rate +-1, device rate == sound rate, rates R with R*(1/R)==1.0): output must equal the reference bit-for-bit, including the first frame (no latency), loop wraps, reverse, the end (exact zeros) and Stopped reported exactly when the reference has ended. Other rates / rate pairs / zero-duration rate changes: |out - f64 Hermite reference| <= 1e-5. seek_to / seek_by / set_loop_region at arbitrary chunk boundaries; position() must name the heard frame within one frame; seeks must land within one frame once the 4-frame window has refilled. A third of the command-free cases are also played on the main track of a real manager (internal buffer 1..128, the case's chunk sizes as callback sizes) and must come out bit for bit as when driven directly, including the silence after the end. Enumeration: all small cases (length <= 6 quick / <= 9 thorough) x slice x start x loop region x reverse x rate sign. Non-trivial = crosses a loop end, reaches the end of data, or contains a seek; distinct = distinct decoded choices."
+		"each case plays one StaticSoundData (index-coded frames, frames outside the slice poisoned with 777.0) as a Box<dyn Sound> with MockInfoBuilder, chunk by chunk, next to an independent reference player. Exact mode (rate +-1, device rate == sound rate, rates R with R*(1/R)==1.0): output must equal the reference bit-for-bit, including the first frame (no latency), loop wraps, reverse, the end (exact zeros) and Stopped reported exactly when the reference has ended. Other rates / rate pairs / zero-duration rate changes: |out - f64 Hermite reference| <= 1e-5. seek_to / seek_by / set_loop_region at arbitrary chunk boundaries; position() must name the heard frame within one frame, from before the first callback on; seeks must land within one frame once the 4-frame window has refilled. A third of the command-free cases are also played on the main track of a real manager (internal buffer 1..128, the case's chunk sizes as callback sizes) and must come out bit for bit as when driven directly, including the silence after the end. Enumeration: all small cases (length <= 6 quick / <= 9 thorough) x slice x start x loop region x reverse x rate sign. Non-trivial = crosses a loop end, reaches the end of data, or contains a seek; distinct = distinct decoded choices."
 	}
 	fn assumptions(&self) -> Vec<String> {
 		vec![
